@@ -529,3 +529,6 @@ func WriteCurrent(id, name string, spec interface{}) {
 
 // ClearCurrent removes the journal entry at the normal end of a non-rapid test.
 func ClearCurrent(name string) { os.Remove(shardFile(name, "current")) }
+
+// TrimStack returns the wharf/verif frames of the current goroutine's stack (for panic reports).
+func TrimStack() string { return trimStack(debug.Stack()) }
